@@ -150,8 +150,22 @@ class ClassObj:
                 self.methods[st.name].owner = self
             elif isinstance(st, ast.AnnAssign) and isinstance(st.target, ast.Name):
                 self.fields.append((st.target.id, st.value))
+                if not self.record and st.value is not None:
+                    self._class_attr(st.target.id, st.value)
             elif isinstance(st, ast.Assign) and len(st.targets) == 1 and isinstance(st.targets[0], ast.Name) and isinstance(st.value, ast.Constant):
                 self.attrs[st.targets[0].id] = st.value.value
+            elif isinstance(st, ast.Assign) and len(st.targets) == 1 and isinstance(st.targets[0], ast.Name):
+                self._class_attr(st.targets[0].id, st.value)
+
+    def _class_attr(self, name: str, value: ast.AST) -> None:
+        """A class-level table (dict / tuple / set literal, possibly of lambdas) evaluated once, in the class body's scope; left out when it is outside the whitelist."""
+        if isinstance(value, ast.Constant):
+            self.attrs[name] = value.value
+            return
+        try:
+            self.attrs[name] = Evaluator(self.env, steps=20000).ev(value, {**self.env, **self.attrs})
+        except (Refused, Raised, TypeError, ValueError, KeyError, AttributeError, IndexError):
+            pass
 
     def __repr__(self) -> str:
         return f"<class {self.node.name}>"
